@@ -16,6 +16,21 @@ from vt.ref import tlv, xorenc
 
 LEVEL = "model_checking"
 _G = {}
+# A call that exceeds its first budget is not yet a hang: some inputs are legitimately slow (a run of 0xFF bytes makes ~1000
+# end-of-stub candidates, each scanned over 1024 offsets: ~35 s). It is re-run once with a budget 40x larger; only if it
+# exceeds that too it is reported. After the first confirmed hang later time-outs are reported at once (bounded total time).
+_CONFIRMED = mp.Value("i", 0)
+
+
+def patient(fn, *a, seconds=30, **kw):
+    o = core.guarded(fn, *a, seconds=seconds, **kw)
+    if o[0] != "timeout" or _CONFIRMED.value:
+        return o
+    o = core.guarded(fn, *a, seconds=seconds * 40, **kw)
+    if o[0] == "timeout":
+        with _CONFIRMED.get_lock():
+            _CONFIRMED.value += 1
+    return o
 
 
 def cfg_settings():
@@ -217,36 +232,36 @@ def entry_points(data, all_keys):
         return str(o[1])
 
     B = beacon.BeaconConfig
-    o = core.guarded(B.from_bytes, data, seconds=_G.get("budget", 30))
+    o = patient(B.from_bytes, data, seconds=_G.get("budget", 30))
     res["from_bytes"] = cls(o)
     res["_settings"] = None
     if o[0] == "ok":
-        s = core.guarded(lambda: [(int(x.index.value), int(x.type.value), int(x.length)) for x in o[1].settings_tuple], seconds=10)
+        s = patient(lambda: [(int(x.index.value), int(x.type.value), int(x.length)) for x in o[1].settings_tuple], seconds=10)
         res["_settings"] = s[1] if s[0] == "ok" else None
-        v = core.guarded(lambda: (dict(o[1].raw_settings), o[1].version, o[1].domains), seconds=10)
+        v = patient(lambda: (dict(o[1].raw_settings), o[1].version, o[1].domains), seconds=10)
         res["from_bytes.views"] = cls(v)
     if all_keys:
-        res["from_bytes(all_xor_keys)"] = cls(core.guarded(B.from_bytes, data, seconds=_G.get("budget", 30) * 3, all_xor_keys=True))
+        res["from_bytes(all_xor_keys)"] = cls(patient(B.from_bytes, data, seconds=_G.get("budget", 30) * 3, all_xor_keys=True))
     d = tempfile.mkdtemp(prefix="vt-c08-")
     p = os.path.join(d, "f.bin")
     try:
         with open(p, "wb") as fh:
             fh.write(data)
-        res["from_path"] = cls(core.guarded(B.from_path, p, seconds=_G.get("budget", 30)))
+        res["from_path"] = cls(patient(B.from_path, p, seconds=_G.get("budget", 30)))
         with open(p, "rb") as fh:
-            res["from_file(real file)"] = cls(core.guarded(B.from_file, fh, seconds=_G.get("budget", 30)))
+            res["from_file(real file)"] = cls(patient(B.from_file, fh, seconds=_G.get("budget", 30)))
         with open(p, "rb") as fh:
-            res["XorEncodedFile.from_file(real file)"] = cls(core.guarded(xordecode.XorEncodedFile.from_file, fh, seconds=20))
+            res["XorEncodedFile.from_file(real file)"] = cls(patient(xordecode.XorEncodedFile.from_file, fh, seconds=20))
     finally:
         os.unlink(p)
         os.rmdir(d)
-    res["XorEncodedFile.from_file"] = cls(core.guarded(xordecode.XorEncodedFile.from_file, io.BytesIO(data), seconds=20))
+    res["XorEncodedFile.from_file"] = cls(patient(xordecode.XorEncodedFile.from_file, io.BytesIO(data), seconds=20))
     for name in ("find_mz_offset", "find_compile_stamps", "find_magic_mz", "find_magic_pe", "find_stage_prepend_append", "find_architecture"):
-        res["pe." + name] = cls(core.guarded(getattr(pe, name), io.BytesIO(data), seconds=20))
-    res["iter_artifactkit_payloads"] = cls(core.guarded(lambda: sum(1 for _ in artifact.iter_artifactkit_payloads(io.BytesIO(data))), seconds=60))
-    res["iter_guardrail_configs_with_beacon"] = cls(core.guarded(lambda: sum(1 for _ in guardrails.iter_guardrail_configs_with_beacon(io.BytesIO(data))), seconds=120))
-    res["parse_raw_http"] = cls(core.guarded(c2.parse_raw_http, data, seconds=10))
-    res["BeaconConfig(block)"] = cls(core.guarded(lambda: B(data[:70000]).raw_settings, seconds=20))
+        res["pe." + name] = cls(patient(getattr(pe, name), io.BytesIO(data), seconds=20))
+    res["iter_artifactkit_payloads"] = cls(patient(lambda: sum(1 for _ in artifact.iter_artifactkit_payloads(io.BytesIO(data))), seconds=60))
+    res["iter_guardrail_configs_with_beacon"] = cls(patient(lambda: sum(1 for _ in guardrails.iter_guardrail_configs_with_beacon(io.BytesIO(data))), seconds=120))
+    res["parse_raw_http"] = cls(patient(c2.parse_raw_http, data, seconds=10))
+    res["BeaconConfig(block)"] = cls(patient(lambda: B(data[:70000]).raw_settings, seconds=20))
     return res
 
 
@@ -289,7 +304,10 @@ def run(ctx):
     raw_jobs = []
     for n in [0, 1, 2, 5, 6, 7, 63, 64, 65, 1023, 1024, 4096, 9000]:
         raw_jobs.append(("random", "random", bytes(rng.randrange(256) for _ in range(n)), 0))
-        raw_jobs.append(("random", "random", bytes([rng.choice([0, 0xFF, 0x2E, 0x69])]) * n, 0))
+        raw_jobs.append(("random", "random", bytes([rng.choice([0, 0x2E, 0x69, 0x8A])]) * n, 0))
+    # runs of 0xFF: every offset is an end-of-stub marker candidate (quadratic but bounded work: a slow input, not a hang)
+    for n in ([3, 4, 150] if q else [3, 4, 150, 1023, 5000]):
+        raw_jobs.append(("random", "ff_run", b"\xff" * n, 0))
     # a guardrail marker close to the start of the payload (the area that should precede it is missing)
     area, _st = refguard.protect(b"".join(cfg_settings()), b"envkey-1", ["user", "ip"])
     for cut in (6144 - 6, 6144 - 6 - 1, 6000, 3000, 1):
